@@ -129,3 +129,55 @@ package lnwallet
 //@   site call addCommitment as view: assert arg(1) == localCommitmentView && retn(fetchCommitmentView, 1) == nil
 //@   site call addCommitment as commitsig: assert retn(VerifyCommitSig, 1) == nil || ret(Verify)
 //@   site call addCommitment as htlcsigs: assert i == len(verifyJobs)
+//@
+//@ func (lc *LightningChannel) SettleHTLC
+//@   props C08
+//@   site call lookupHtlc: assert arg(0) == lc.updateLogs.Remote && arg(i) == htlcIndex
+//@   site call htlcHasModification: assert arg(0) == lc.updateLogs.Remote && arg(i) == htlcIndex
+//@   site call Sum256: assert arg(0) == sliceof(preimage)
+//@   site call appendUpdate: assert ret(lookupHtlc) != nil && !ret(htlcHasModification) && ret(lookupHtlc).RHash == ret(Sum256) &&
+//@        arg(0) == lc.updateLogs.Local && arg(pd).EntryType == Settle && arg(pd).Amount == ret(lookupHtlc).Amount &&
+//@        arg(pd).ParentIndex == htlcIndex && arg(pd).RPreimage == preimage
+//@   site call markHtlcModified: assert arg(0) == lc.updateLogs.Remote && arg(i) == htlcIndex && called(appendUpdate)
+//@   site return nil: assert called(appendUpdate) && called(markHtlcModified)
+//@
+//@ func (lc *LightningChannel) ReceiveHTLCSettle
+//@   props C08
+//@   site call lookupHtlc: assert arg(0) == lc.updateLogs.Local && arg(i) == htlcIndex
+//@   site call htlcHasModification: assert arg(0) == lc.updateLogs.Local && arg(i) == htlcIndex
+//@   site call Sum256: assert arg(0) == sliceof(preimage)
+//@   site call appendUpdate: assert ret(lookupHtlc) != nil && !ret(htlcHasModification) && ret(lookupHtlc).RHash == ret(Sum256) &&
+//@        arg(0) == lc.updateLogs.Remote && arg(pd).EntryType == Settle && arg(pd).Amount == ret(lookupHtlc).Amount &&
+//@        arg(pd).ParentIndex == ret(lookupHtlc).HtlcIndex && arg(pd).RPreimage == preimage
+//@   site call markHtlcModified: assert arg(0) == lc.updateLogs.Local && arg(i) == htlcIndex && called(appendUpdate)
+//@   site return nil: assert called(appendUpdate) && called(markHtlcModified)
+//@
+//@ func (lc *LightningChannel) FailHTLC
+//@   props C08
+//@   site call lookupHtlc: assert arg(0) == lc.updateLogs.Remote && arg(i) == htlcIndex
+//@   site call htlcHasModification: assert arg(0) == lc.updateLogs.Remote && arg(i) == htlcIndex
+//@   site call appendUpdate: assert ret(lookupHtlc) != nil && !ret(htlcHasModification) &&
+//@        arg(0) == lc.updateLogs.Local && arg(pd).EntryType == Fail && arg(pd).Amount == ret(lookupHtlc).Amount &&
+//@        arg(pd).ParentIndex == htlcIndex && arg(pd).RHash == ret(lookupHtlc).RHash
+//@   site call markHtlcModified: assert arg(0) == lc.updateLogs.Remote && arg(i) == htlcIndex && called(appendUpdate)
+//@   site return nil: assert called(appendUpdate) && called(markHtlcModified)
+//@
+//@ func (lc *LightningChannel) MalformedFailHTLC
+//@   props C08
+//@   site call lookupHtlc: assert arg(0) == lc.updateLogs.Remote && arg(i) == htlcIndex
+//@   site call htlcHasModification: assert arg(0) == lc.updateLogs.Remote && arg(i) == htlcIndex
+//@   site call appendUpdate: assert ret(lookupHtlc) != nil && !ret(htlcHasModification) &&
+//@        arg(0) == lc.updateLogs.Local && arg(pd).EntryType == MalformedFail && arg(pd).Amount == ret(lookupHtlc).Amount &&
+//@        arg(pd).ParentIndex == htlcIndex && arg(pd).RHash == ret(lookupHtlc).RHash
+//@   site call markHtlcModified: assert arg(0) == lc.updateLogs.Remote && arg(i) == htlcIndex && called(appendUpdate)
+//@   site return nil: assert called(appendUpdate) && called(markHtlcModified)
+//@
+//@ func (lc *LightningChannel) ReceiveFailHTLC
+//@   props C08
+//@   site call lookupHtlc: assert arg(0) == lc.updateLogs.Local && arg(i) == htlcIndex
+//@   site call htlcHasModification: assert arg(0) == lc.updateLogs.Local && arg(i) == htlcIndex
+//@   site call appendUpdate: assert ret(lookupHtlc) != nil && !ret(htlcHasModification) &&
+//@        arg(0) == lc.updateLogs.Remote && arg(pd).EntryType == Fail && arg(pd).Amount == ret(lookupHtlc).Amount &&
+//@        arg(pd).ParentIndex == ret(lookupHtlc).HtlcIndex && arg(pd).RHash == ret(lookupHtlc).RHash
+//@   site call markHtlcModified: assert arg(0) == lc.updateLogs.Local && arg(i) == htlcIndex && called(appendUpdate)
+//@   site return nil: assert called(appendUpdate) && called(markHtlcModified)
